@@ -37,16 +37,21 @@ Definition g_int (val mn mx : option intv) : M value :=
       dom z <- random_int lo hi; ret (VInt z)
   end.
 
+(* the bounds visit_float hands to random_float *)
+Definition float_lo_hi (mn mx : option float) : float * float :=
+  let lo := match mn with Some m => m | None => FLOAT_MIN end in
+  let hi := match mx with Some m => m | None => FLOAT_MAX end in
+  let hi := match mx with None => pymax_f hi lo | Some _ => hi end in
+  let lo := match mx, mn with Some _, None => pymin_f lo hi | _, _ => lo end in
+  (lo, hi).
+
 (* visit_float *)
 Definition g_float (val mn mx : option float) (pr : option intv) : M value :=
   match val with
   | Some x => ret (VFloat x)
   | None =>
-      let lo := match mn with Some m => m | None => FLOAT_MIN end in
-      let hi := match mx with Some m => m | None => FLOAT_MAX end in
-      let hi := match mx with None => pymax_f hi lo | Some _ => hi end in
-      let lo := match mx, mn with Some _, None => pymin_f lo hi | _, _ => lo end in
-      dom x <- random_float lo hi (match pr with Some p => Some (iz p) | None => None end);
+      dom x <- random_float (fst (float_lo_hi mn mx)) (snd (float_lo_hi mn mx))
+                            (match pr with Some p => Some (iz p) | None => None end);
       ret (VFloat x)
   end.
 
@@ -75,6 +80,9 @@ Definition g_str (w : world) (val : option pystr) (len mnl mxl : option intv)
                 random_int lo hi
             end;
           let alphabet := match al with Some a => a | None => STR_ALPHABET end in
+          (* an empty alphabet: only the substring (or "") is left *)
+          let length := match alphabet with [] => (match sub with Some t => zlen t | None => 0 end)
+                                          | _ => length end in
           match sub with
           | Some t =>
               dom g <- random_str (length - zlen t) alphabet;
